@@ -18,6 +18,17 @@ CHECKS = {
         'Trusted: numpy elementwise arithmetic of the generated functions; the sign of f is exact around the root. '
         'Tolerance for chandrupatla includes 8 ulp of the bracket end (floating resolution).',
         'DESIGN.md 4/C18'),
+    'C06': (
+        'property-based testing (Hypothesis): generated (family, theta, point batch) against a 50-digit mpmath '
+        'reference CDF plus copula-axiom, generator-identity, theta-order and row-independence invariants',
+        'Generated-input search over the three families, theta across the whole |tau|<=0.8 range (incl. Gumbel theta=1, '
+        'Frank near 0 and at +-18.2) and point batches that mix interior, boundary-hugging (1e-12), exact-boundary and '
+        'denormal coordinates. Decided by an independent high-precision reference and by the copula axioms '
+        '(groundedness exact, margins, Frechet bounds, symmetry, 2-increasing on generated rectangles), the Archimedean '
+        'generator identity, ordering in theta and row independence. Exploration: ~6e3 (quick) / ~2e5 (thorough) batches.',
+        'Trusted: mpmath closed forms of Nelsen table 4.1. Tolerances: 1e-12 (Clayton, Gumbel), '
+        '1e-12+32 eps (1+e^|theta|)/|theta| (Frank, documented cancellation).',
+        'DESIGN.md 4/C06'),
 }
 
 
